@@ -234,6 +234,18 @@ def families(thorough):
             s.append(Case(t, stop='X', shards=[(0, 1)], custom=True))
     for t in (["q:SET PRIMARY READS TO 'on'", 'q:SHOW PRIMARY READS', 'select'], ["q:SET PRIMARY READS TO 'off';", 'select']):
         s.append(Case(t, stop='X', shards=[(0, 1)], custom=True))
+    # routing by comment (shard_id_regex / sharding_key_regex of the example configuration), in a simple Query and in a Parse, with the
+    # session sitting on another shard before
+    # (a shard id in a comment is kept below the number of shards: what an out-of-range id in a comment selects is not specified)
+    sk, si = '/* sharding_key: ', '/* shard_id: '
+    for t in (['qdc|1<2|%s| */ SELECT 1' % si, 'select'], ["q:SET SHARD TO '1'", 'qdc|1|%s| */ SELECT 1' % sk, 'select2'],
+              ["q:SET SHARD TO '1'", 'pdc|1||%s| */ SELECT 1' % sk, 'B', 'E', 'S', 'select'], ['pdc|1<2|s1|%s| */ SELECT 1' % si, 'Bs', 'E', 'S', 'q:SHOW SHARD'],
+              ["q:SET SHARD TO '0'", 'pdc|1<2||%s| */ SELECT 1' % si, 'B', 'E', 'S'], ['begin', 'qdc|1<2|%s| */ SELECT 1' % si, 'commit', 'select'],
+              ["q:SET SHARDING KEY TO '1'", 'qdc|1|%s| */ SELECT 1' % sk, 'select']):
+        s.append(Case(t, stop='X', shards=two_shards, custom=True, regex=True))
+    if thorough:
+        for t in (['qdc|2|%s| */ SELECT 1' % sk, 'select'], ['pdc|2||%s| */ SELECT 1' % sk, 'B', 'E', 'S', 'select'], ['pdc|1<3|s1|%s| */ SELECT 1' % si, 'Bs', 'E', 'S', 'select']):
+            s.append(Case(t, stop='X', shards=[(0,), (0,), (0,)], custom=True, regex=True))
     F['commands'] = s
     # -- two backends (either may be picked at checkout)
     s = []
@@ -264,7 +276,7 @@ DESCR = {
     'timeouts': 'transactions of a client while idle_client_in_transaction_timeout is configured: at every read inside the transaction loop the deadline fires or not (solver\'s choice), afterwards the session goes on; and sessions with statement_timeout configured in which a slow statement is or is not answered in time',
     'two-clients': 'a first client (tracked-parameter SETs, named statements with caching on, an open transaction / COPY / session state at EOF) followed by a second client on the same server connections with its own parameters, statement names and requests',
     'copy': 'COPY IN sessions whose CopyData chunks have sizes on both sides of the 8196-byte forwarding threshold (1-3 chunks, CopyDone or CopyFail, then another query)',
-    'commands': 'sessions that use the pooler commands (SET SHARD / SET SHARDING KEY with SYMBOLIC decimal digits, SHOW SHARD, SET SERVER ROLE, SET PRIMARY READS) on a pool of two shards or of a primary and a replica, outside and inside BEGIN',
+    'commands': 'sessions that use the pooler commands (SET SHARD / SET SHARDING KEY with SYMBOLIC decimal digits, SHOW SHARD, SET SERVER ROLE, SET PRIMARY READS, and sharding_key / shard_id comments in a Query or a Parse) on a pool of two shards or of a primary and a replica, outside and inside BEGIN',
     'two-backends': 'a pool of two servers (replica+replica, primary+replica): either may be handed out at each checkout',
 }
 
